@@ -1017,11 +1017,18 @@ def build_fortran_definition(
         # in Fortran, `1 / 2` is integer division and `max(2, x)` does not
         # compile (leave the array subscripts alone). An integer exponent stays
         # an integer: `x ** 2` is defined for negative `x`, `x ** 2d0` is not
+        # (unless it is itself raised to a power: `2 ** 2 ** -2` must not
+        # become the integer power `2 ** -2`, which is zero)
         def mark_as_double(match: 're.Match') -> str:
             literal = match.group(1)
             before = re.sub(r'\s+', '', match.string[: match.start()])
+            after = re.sub(r'\s+', '', match.string[match.end() :])
 
-            if literal.isdigit() and re.search(r'\*\*\(*-?$', before):
+            if (
+                literal.isdigit()
+                and re.search(r'\*\*\(*-?$', before)
+                and not re.match(r'\)*\*\*', after)
+            ):
                 return literal
 
             return literal + 'd0'
